@@ -56,6 +56,12 @@ theorem config_accepted_is_valid (secs : List Ini.Section) (c : Ini.IniConfig) (
 theorem config_fault_rejected (o : Cli.Options) (ini : Option (List Ini.Section)) (grids : List (String × List (List Cell)))
     (h : ini = none ∨ ∃ secs e, ini = some secs ∧ Ini.ofIni secs = .error e) :
     (Cli.runIni o ini grids).exit ≠ 0 ∧ (Cli.runIni o ini grids).files = [] := Cli.runIni_bad_config o ini grids h
+/-- **workbook faults end the run**: a sheet among the assets to process that is missing, or that the parser rejects (any row or structure
+    fault of the theorems above), makes the whole run exit non-zero having written nothing — no asset is computed, no report generated -/
+theorem workbook_fault_rejected (o : Cli.Options) (cfg : Config) (lookup : String → Option (List (List Cell))) (a : String)
+    (ha : a ∈ Cli.assetNames o cfg.assets)
+    (hbad : lookup a = none ∨ ∃ g, lookup a = some g ∧ ∀ base, ∃ e, parseSheet cfg a (Cli.acctOf cfg) g base = .error e) :
+    (Cli.runCellsWith o cfg lookup).exit ≠ 0 ∧ (Cli.runCellsWith o cfg lookup).files = [] := Cli.bad_sheet_rejected o cfg lookup a ha hbad
 theorem header_column_table_agrees :
     (Gen.headerColumns.map (·.1) == ["in_header", "intra_header", "out_header"] &&
      Gen.headerColumns.all (fun p =>
